@@ -205,10 +205,16 @@ Definition del_full (d : delrec) : path :=
   ++ (if str_nonempty (d_origin d) then [d_origin d] else [])
   ++ to_strings_gp (d_path d) false.
 
+(** which paths a delete removes at the client: a glob-free delete path names one
+    leaf (the cache announces deletes leaf by leaf), a path with a glob -- the
+    <root>/* deletes of a reset -- everything it matches *)
+Definition dmatch (d p : path) : bool :=
+  if forallb (fun e => negb (is_glob e)) d then path_eqb d p else qmatch d p.
+
 Definition concerns (H : heap) (p : path) (i : qitem) : bool :=
   match i with
   | QLeaf g => match hget H g with Some r => path_eqb (full_path r) p | None => false end
-  | QDel d => path_eqb (del_full d) p
+  | QDel d => dmatch (del_full d) p
   | QSync => false
   end.
 
@@ -286,14 +292,16 @@ Definition condD (dom : path -> bool) (e : option (bool * path)) : Prop :=
   match e with
   | None => True
   | Some (true, p) => forall s, dom s = true -> conflict s p = false      (* the Add succeeds *)
-  | Some (false, p) => forall s, dom s = true -> strict_prefix p s = false (* the Delete removes one leaf at most *)
+  | Some (false, p) =>
+      (* a leaf delete removes one leaf at most; a wildcard delete may remove many *)
+      forallb (fun e => negb (is_glob e)) p = true -> forall s, dom s = true -> strict_prefix p s = false
   end.
 
 Definition stepD (dom : path -> bool) (e : option (bool * path)) : path -> bool :=
   match e with
   | None => dom
   | Some (true, p) => fun s => path_eqb s p || dom s
-  | Some (false, p) => fun s => negb (path_eqb s p) && dom s
+  | Some (false, p) => fun s => negb (dmatch p s) && dom s
   end.
 
 (** every event of the queue finds the tree in a state in which it acts on
@@ -311,7 +319,11 @@ Fixpoint finalD (dom : path -> bool) (q : list (option (bool * path))) (p : path
   end.
 
 Lemma condD_ext d1 d2 e : (forall s, d1 s = d2 s) -> condD d1 e -> condD d2 e.
-Proof. intros He. destruct e as [[[|] p]|]; cbn; auto; intros Hc s Hs; apply Hc; now rewrite He. Qed.
+Proof.
+  intros He. destruct e as [[[|] p]|]; cbn; auto.
+  - intros Hc s Hs; apply Hc; now rewrite He.
+  - intros Hc Hg s Hs; apply Hc; auto; now rewrite He.
+Qed.
 
 Lemma stepD_ext d1 d2 e : (forall s, d1 s = d2 s) -> forall s, stepD d1 e s = stepD d2 e s.
 Proof. intros He s. destruct e as [[[|] p]|]; cbn; now rewrite ?He. Qed.
@@ -343,7 +355,10 @@ Fixpoint last_ev (p : path) (q : list (option (bool * path))) : option bool :=
   | e :: q' =>
       match last_ev p q' with
       | Some b => Some b
-      | None => match e with Some (b, p') => if path_eqb p' p then Some b else None | None => None end
+      | None => match e with
+                | Some (b, p') => if (if b then path_eqb p' p else dmatch p' p) then Some b else None
+                | None => None
+                end
       end
   end.
 
@@ -352,8 +367,8 @@ Lemma finalD_last q : forall dom p,
 Proof.
   induction q as [|e q IH]; cbn; intros dom p; [reflexivity|]. rewrite IH.
   destruct (last_ev p q) as [b|]; [reflexivity|].
-  destruct e as [[[|] p']|]; cbn; rewrite ?(path_eqb_sym_b p p');
-    try destruct (path_eqb p' p); reflexivity.
+  destruct e as [[[|] p']|]; cbn [stepD]; rewrite ?(path_eqb_sym_b p p');
+    [destruct (path_eqb p' p)|destruct (dmatch p' p)|]; reflexivity.
 Qed.
 
 Lemma last_ev_conc H p q :
@@ -371,7 +386,7 @@ Proof.
   - destruct i as [g|d|]; cbn [ev concerns]; try reflexivity.
     + destruct (hget H g) as [r|] eqn:Hr; [|reflexivity].
       destruct (path_eqb (full_path r) p); cbn [ev]; rewrite ?Hr; reflexivity.
-    + destruct (path_eqb (del_full d) p); reflexivity.
+    + destruct (dmatch (del_full d) p); reflexivity.
 Qed.
 
 Lemma ev_ext H H' q :
@@ -503,7 +518,9 @@ Qed.
 Definition item_ok (H : heap) (i : qitem) : Prop :=
   match i with
   | QLeaf g => exists r, hget H g = Some r /\ rec_ok r /\ under (idx r) = true
-  | QDel d => exists k, del_full d = name :: k /\ Keys k /\ under k = true
+  | QDel d =>
+      (exists k, del_full d = name :: k /\ Keys k /\ under k = true)           (* one leaf *)
+      \/ (exists root, del_full d = [name; root; "*"] /\ is_glob root = false)  (* a reset: <root>/* *)
   | QSync => True
   end.
 
@@ -515,7 +532,7 @@ Record sub_inv (T : tree nat) (H : heap) (TF : tfun) (sb : subscriber) : Prop :=
   si_items : forall i, In i (sb_queue sb) -> item_ok H i;
   si_final : forall k, Keys k ->
       final H (cl_tree (sb_client sb)) (sb_queue sb) (name :: k) = if under k then decode (TF k) else None;
-  si_live : forall k g, lookup T k = Some g ->
+  si_live : forall k g, lookup T k = Some g -> under k = true ->
       match last_conc H (name :: k) (sb_queue sb) with None => True | Some i => i = QLeaf g end;
   si_safe : safeD (dom_of (cl_tree (sb_client sb))) (map (ev H) (sb_queue sb))
 }.
@@ -574,21 +591,21 @@ Proof.
 Qed.
 
 
-(** an item that concerns a key is about a key the query selects *)
-Lemma concerns_under H i k : item_ok H i -> concerns H (name :: k) i = true -> under k = true.
+Lemma dmatch_exact k p : Keys k -> dmatch (name :: k) p = path_eqb (name :: k) p.
 Proof.
-  destruct i as [g|d|]; cbn [item_ok concerns]; [| |discriminate].
-  - intros (r & Hr & Hok & Hu). rewrite Hr. intros Hc. apply path_eqb_eq in Hc.
-    rewrite (full_path_ok r Hok) in Hc. inversion Hc. congruence.
-  - intros (k' & Hd & _ & Hu) Hc. apply path_eqb_eq in Hc. rewrite Hd in Hc. inversion Hc. congruence.
+  intros Hk. unfold dmatch. cbn [forallb]. rewrite name_ng. cbn [negb andb].
+  change (forallb (fun e => negb (is_glob e)) k) with (glob_free k). now rewrite (Keys_gf k Hk).
 Qed.
 
-Lemma not_under_last H q k :
-  (forall i, In i q -> item_ok H i) -> under k = false -> last_conc H (name :: k) q = None.
+Lemma dmatch_root root p : dmatch [name; root; "*"] p = qmatch [name; root; "*"] p.
+Proof. unfold dmatch. cbn [forallb]. now rewrite !andb_false_r || (cbn; now rewrite !andb_false_r). Qed.
+
+Lemma qmatch_root root k :
+  is_glob root = false ->
+  qmatch [name; root; "*"] (name :: k) = match k with r0 :: _ => String.eqb root r0 | [] => false end.
 Proof.
-  intros Hit Hu. apply last_conc_None. intros i Hin.
-  destruct (concerns H (name :: k) i) eqn:Hc; [|reflexivity].
-  rewrite (concerns_under H i k (Hit i Hin) Hc) in Hu. discriminate.
+  intros Hr. cbn [qmatch]. rewrite name_ng, String.eqb_refl. cbn [andb]. rewrite Hr.
+  destruct k as [|r0 k']; [reflexivity|]. cbn. now rewrite andb_true_r.
 Qed.
 
 Lemma conflict_cons a k1 k2 : conflict (a :: k1) (a :: k2) = conflict k1 k2.
@@ -655,31 +672,31 @@ Proof.
     intros k Hk. unfold final. rewrite Hlast. unfold tfset.
     destruct (path_eqb_spec k (idx r)) as [->|Hne].
     + cbn [decode]. specialize (S6 (idx r) Hk). rewrite Htf in S6. cbn [decode] in S6.
-      specialize (S7 _ _ Hlk). unfold final in S6.
-      destruct Hq' as [[-> Hc]|[-> Hu]].
-      * destruct (last_conc H (name :: idx r) (sb_queue sb)) as [i|] eqn:El.
-        -- subst i. rewrite Hold in S6. rewrite hget_hset, Nat.eqb_refl.
-           destruct (under (idx r)) eqn:Hu.
+      unfold final in S6. destruct (under (idx r)) eqn:Hu.
+      * specialize (S7 _ _ Hlk Hu).
+        destruct Hq' as [[-> Hc]|[-> _]].
+        -- destruct (last_conc H (name :: idx r) (sb_queue sb)) as [i|] eqn:El.
+           ++ subst i. rewrite Hold in S6. now rewrite hget_hset, Nat.eqb_refl.
            ++ destruct Hc as [Hc|[Hc|Hc]]; [| |discriminate].
-              ** (* pending: reads the new value *) reflexivity.
-              ** reflexivity.
-           ++ exfalso. apply (Vals_dec _ (ro_val old Hoko)). exact S6.
-        -- destruct Hc as [Hc|[Hc|Hc]].
-           ++ exfalso. apply existsb_exists in Hc as (i & Hi & Hig).
-              destruct i as [g1|d|]; cbn in Hig; try discriminate. apply Nat.eqb_eq in Hig. subst g1.
-              apply (proj1 (last_conc_None _ _ _) El) in Hi. rewrite Hcg, path_eqb_refl in Hi. discriminate.
-           ++ rewrite S6. now rewrite Hc.
-           ++ rewrite S6, Hc. reflexivity.
-      * rewrite last_conc_app. cbn [last_conc]. rewrite Hcg, path_eqb_refl.
-        rewrite hget_hset, Nat.eqb_refl, Hu. reflexivity.
+              ** exfalso. apply existsb_exists in Hc as (i & Hi & Hig).
+                 destruct i as [g1|d|]; cbn in Hig; try discriminate. apply Nat.eqb_eq in Hig. subst g1.
+                 apply (proj1 (last_conc_None _ _ _) El) in Hi. rewrite Hcg, path_eqb_refl in Hi. discriminate.
+              ** rewrite S6. now rewrite Hc.
+        -- rewrite last_conc_app. cbn [last_conc]. rewrite Hcg, path_eqb_refl.
+           now rewrite hget_hset, Nat.eqb_refl.
+      * (* not selected by the subscription: nothing about it is ever queued as a leaf *)
+        assert (Hq : q' = sb_queue sb) by (destruct Hq' as [[-> _]|[_ E]]; [reflexivity|congruence]).
+        rewrite Hq. destruct (last_conc H (name :: idx r) (sb_queue sb)) as [[g1|d|]|] eqn:El; try assumption.
+        exfalso. apply last_conc_In in El as [Hi _]. destruct (S5 _ Hi) as (r1 & Hr1 & Hok1 & _).
+        rewrite Hr1 in S6. now apply (Vals_dec _ (ro_val r1 Hok1)).
     + rewrite (Hlast' k Hne). specialize (S6 k Hk). unfold final in S6.
       destruct (last_conc H (name :: k) (sb_queue sb)) as [[g1|d|]|] eqn:El; try assumption.
       rewrite hget_hset. destruct (Nat.eqb_spec g1 g) as [->|_]; [|assumption].
       exfalso. apply last_conc_In in El as [_ Hc]. rewrite Hcg in Hc. apply path_eqb_eq in Hc.
       inversion Hc; congruence.
   - (* live *)
-    intros k g' Hl'. rewrite Hlast. destruct (path_eqb_spec k (idx r)) as [->|Hne].
-    + assert (g' = g) by congruence. subst g'. specialize (S7 _ _ Hlk).
+    intros k g' Hl' Hu'. rewrite Hlast. destruct (path_eqb_spec k (idx r)) as [->|Hne].
+    + assert (g' = g) by congruence. subst g'. specialize (S7 _ _ Hlk Hu').
       destruct Hq' as [[-> _]|[-> _]]; [assumption|].
       rewrite last_conc_app. cbn [last_conc]. now rewrite Hcg, path_eqb_refl.
     + rewrite (Hlast' k Hne). now apply S7.
@@ -741,15 +758,15 @@ Proof.
     destruct (path_eqb_spec k (idx r)) as [->|Hne].
     + rewrite andb_true_r. cbn [decode]. destruct (under (idx r)) eqn:Hu.
       * now rewrite hget_hset, Nat.eqb_refl.
-      * rewrite (not_under_last H _ _ S5 Hu). specialize (S6 _ Hk). rewrite Hu in S6.
-        unfold final in S6. now rewrite (not_under_last H _ _ S5 Hu) in S6.
+      * specialize (S6 _ Hk). rewrite Hu in S6. unfold final in S6.
+        destruct (last_conc H (name :: idx r) (sb_queue sb)) as [[g1|d|]|] eqn:El; try assumption.
+        apply last_conc_In in El as [Hi _]. now rewrite (Hget g1 Hi).
     + rewrite andb_false_r. specialize (S6 k Hk). unfold final in S6.
       destruct (last_conc H (name :: k) (sb_queue sb)) as [[g1|d|]|] eqn:El; try assumption.
       apply last_conc_In in El as [Hi _]. now rewrite (Hget g1 Hi).
-  - intros k g' Hl'. rewrite Hlq. rewrite HT' in Hl'.
+  - intros k g' Hl' Hu'. rewrite Hlq. rewrite HT' in Hl'.
     destruct (path_eqb_spec k (idx r)) as [->|Hne].
-    + inversion Hl'; subst g'. rewrite andb_true_r. destruct (under (idx r)) eqn:Hu; [reflexivity|].
-      now rewrite (not_under_last H _ _ S5 Hu).
+    + inversion Hl'; subst g'. now rewrite andb_true_r, Hu'.
     + rewrite andb_false_r. now apply S7.
   - (* safe *)
     assert (Hev : map (ev (hset H gen r)) (sb_queue sb) = map (ev H) (sb_queue sb)).
@@ -942,21 +959,21 @@ Proof.
   { intros k1. unfold tf_minus, mem. cbn [existsb]. now destruct (path_eqb k1 k). }
   destruct (under k) eqn:Hu.
   - assert (Hcd : forall p, concerns H p (QDel (to_delete old ts)) = path_eqb (name :: k) p).
-    { intros p. cbn [concerns]. now rewrite (del_full_to_delete old ts Hok), Hidx. }
+    { intros p. cbn [concerns]. now rewrite (del_full_to_delete old ts Hok), Hidx, (dmatch_exact k p Hk). }
     constructor; cbn [sb_queries sb_query sb_more sb_queue sb_client]; auto.
     + intros i Hi. apply in_app_iff in Hi as [Hi|[<-|[]]]; [auto|].
-      cbn [item_ok]. exists k. rewrite (del_full_to_delete old ts Hok), Hidx. auto.
+      cbn [item_ok]. left. exists k. rewrite (del_full_to_delete old ts Hok), Hidx. auto.
     + intros k1 Hk1. rewrite Htm. unfold final. rewrite last_conc_app. cbn [last_conc]. rewrite Hcd.
       destruct (path_eqb_spec k1 k) as [->|Hne].
       * rewrite path_eqb_refl. now destruct (under k).
       * destruct (path_eqb_spec (name :: k) (name :: k1)) as [E|_]; [inversion E; congruence|].
         specialize (S6 k1 Hk1). unfold final in S6.
         now destruct (last_conc H (name :: k1) (sb_queue sb)).
-    + intros k1 g1 Hl1. rewrite last_conc_app. cbn [last_conc]. rewrite Hcd.
+    + intros k1 g1 Hl1 Hu1. rewrite last_conc_app. cbn [last_conc]. rewrite Hcd.
       destruct (path_eqb_spec (name :: k) (name :: k1)) as [E|_]; [inversion E; congruence|].
-      specialize (S7 _ _ Hl1). now destruct (last_conc H (name :: k1) (sb_queue sb)).
+      specialize (S7 _ _ Hl1 Hu1). now destruct (last_conc H (name :: k1) (sb_queue sb)).
     + rewrite map_app. apply safeD_app. split; [assumption|]. cbn [map safeD ev condD]. split; [|exact I].
-      intros s Hs. destruct (finalD_TF _ _ _ _ s Hsi Hs) as (k' & -> & _ & Hk').
+      intros _ s Hs. destruct (finalD_TF _ _ _ _ s Hsi Hs) as (k' & -> & _ & Hk').
       rewrite (del_full_to_delete old ts Hok), Hidx, strict_prefix_cons, String.eqb_refl. cbn [andb].
       apply Hpfk. unfold tf_minus in Hk'. destruct (mem k' D); [congruence|assumption].
   - constructor; auto. intros k1 Hk1. rewrite Htm. destruct (path_eqb_spec k1 k) as [->|_]; [|auto].
@@ -1151,9 +1168,9 @@ Proof.
   intros [S1 S2 S3 S4 S5 S6 S7 S8] Hq. rewrite Hq in *.
   assert (Hit : item_ok H i) by (apply S5; now left).
   cbn [map safeD] in S8. destruct S8 as [Hcond Hsafe].
-  assert (Hlive : forall k g, lookup T k = Some g ->
+  assert (Hlive : forall k g, lookup T k = Some g -> under k = true ->
             match last_conc H (name :: k) q' with None => True | Some j => j = QLeaf g end).
-  { intros k g Hl. specialize (S7 _ _ Hl). cbn [last_conc] in S7.
+  { intros k g Hl Hu. specialize (S7 _ _ Hl Hu). cbn [last_conc] in S7.
     now destruct (last_conc H (name :: k) q'). }
   (* the effect of delivering [i] on the client's tree *)
   assert (Heff : exists c', deliver H (sb_client sb) i = c' /\ cl_err c' = false /\ wf_tree (cl_tree c') /\
@@ -1179,17 +1196,35 @@ Proof.
         intros _. exists (idx r). split; [reflexivity|apply Hok].
       + intros s. cbn [stepD]. unfold dom_of. rewrite Hl'. now destruct (path_eqb s (name :: idx r)).
       + intros k Hk. rewrite Hl'. rewrite (path_eqb_sym_b (name :: k)). reflexivity.
-    - destruct Hit as (k0 & Hd & Hk0 & Hu). unfold client_recv. rewrite S2.
-      unfold resp_of_del. cbn [rs_prefix rs_updates rs_deletes client_updates client_deletes fold_left].
-      assert (Hdf : to_strings_gp {| g_origin := d_origin d; g_target := d_target d; g_elem := []; g_element := [] |} true
+    - assert (Hdf : to_strings_gp {| g_origin := d_origin d; g_target := d_target d; g_elem := []; g_element := [] |} true
                     ++ to_strings_gp (d_path d) false = del_full d).
       { unfold del_full, to_strings_gp. cbn [g_target g_origin g_elem g_element]. now rewrite app_nil_r, <- app_assoc. }
-      rewrite Hdf, Hd in *. cbn [condD] in Hcond. destruct (client_delete_lookup _ k0 S3 Hk0 Hcond) as [Hwf' Hl'].
-      eexists. split; [reflexivity|]. cbn [cl_err cl_tree]. split; [reflexivity|]. split; [assumption|].
-      split; [|split].
-      + intros p s. rewrite Hl'. destruct (path_eqb p (name :: k0)); [discriminate|apply S4].
-      + intros s. cbn [stepD]. unfold dom_of. rewrite Hl'. now destruct (path_eqb s (name :: k0)).
-      + intros k Hk. rewrite Hl'. rewrite (path_eqb_sym_b (name :: k)). reflexivity.
+      unfold client_recv. rewrite S2.
+      unfold resp_of_del. cbn [rs_prefix rs_updates rs_deletes client_updates client_deletes fold_left].
+      rewrite Hdf. destruct Hit as [(k0 & Hd & Hk0 & Hu)|(root & Hd & Hroot)]; rewrite Hd in *.
+      + (* the delete of one leaf *)
+        assert (Hgf : forallb (fun e => negb (is_glob e)) (name :: k0) = true).
+        { cbn [forallb]. rewrite name_ng. cbn [negb andb]. exact (Keys_gf k0 Hk0). }
+        cbn [condD] in Hcond. specialize (Hcond Hgf).
+        destruct (client_delete_lookup _ k0 S3 Hk0 Hcond) as [Hwf' Hl'].
+        eexists. split; [reflexivity|]. cbn [cl_err cl_tree]. split; [reflexivity|]. split; [assumption|].
+        split; [|split].
+        * intros p s. rewrite Hl'. destruct (path_eqb p (name :: k0)); [discriminate|apply S4].
+        * intros s. cbn [stepD]. unfold dom_of. rewrite Hl', (dmatch_exact k0 s Hk0), (path_eqb_sym_b (name :: k0)).
+          now destruct (path_eqb s (name :: k0)).
+        * intros k Hk. rewrite Hl', (dmatch_exact k0 _ Hk0). rewrite (path_eqb_sym_b (name :: k)). reflexivity.
+      + (* the <root>/* delete of a reset: everything under the root goes *)
+        unfold delete. destruct (delete_spec (cl_tree (sb_client sb)) [name; root; "*"] (fun _ => true) S3)
+          as (Hwf' & Hl' & _).
+        assert (Hlk : forall p, lookup (fst (delete_cond (cl_tree (sb_client sb)) [name; root; "*"] (fun _ => true))) p
+                       = if qmatch [name; root; "*"] p then None else lookup (cl_tree (sb_client sb)) p).
+        { intros p. rewrite Hl'. unfold sel. destruct (lookup (cl_tree (sb_client sb)) p); [|now destruct (qmatch _ p)].
+          now rewrite andb_true_r. }
+        eexists. split; [reflexivity|]. cbn [cl_err cl_tree]. split; [reflexivity|]. split; [assumption|].
+        split; [|split].
+        * intros p s. rewrite Hlk. destruct (qmatch [name; root; "*"] p); [discriminate|apply S4].
+        * intros s. cbn [stepD]. unfold dom_of. rewrite Hlk, dmatch_root. now destruct (qmatch [name; root; "*"] s).
+        * intros k Hk. now rewrite Hlk, dmatch_root.
     - unfold client_sync. rewrite S2. eexists. split; [reflexivity|]. cbn [cl_err cl_tree stepD]. auto. }
   destruct Heff as (c' & -> & E1 & E2 & E3 & E5 & E4).
   constructor; cbn [sb_queries sb_query sb_more sb_queue sb_client]; auto.
@@ -1284,7 +1319,7 @@ Proof.
       { apply in_app_iff. left. apply in_map. now apply (Hall k g). }
       apply (proj1 (last_conc_None _ _ _) El) in Hi. cbn [concerns] in Hi.
       rewrite Hr, (full_path_ok r Hok), Hidx, path_eqb_refl in Hi. discriminate.
-  - intros k g Hl.
+  - intros k g Hl _.
     destruct (last_conc H (name :: k) (map QLeaf gs ++ [QSync])) as [i|] eqn:El; [|exact I].
     apply last_conc_In in El as [Hi Hc]. destruct (Hconc k i Hi Hc) as (g' & -> & Hl'). congruence.
   - (* safe: the snapshot leaves are pairwise conflict-free *)
@@ -1353,7 +1388,7 @@ Qed.
 Definition item_good (it : item) : Prop :=
   match it with
   | ISync => True
-  | IReset => False          (* one uninterrupted session: see relay_sessions in Props/C01.v *)
+  | IReset => True           (* a stream failure: the manager resets the target, a new session follows *)
   | IUpd n =>
       g_origin (spre n) <> meta_root /\
       forall u, In u (n_updates n) ->
@@ -1362,7 +1397,8 @@ Definition item_good (it : item) : Prop :=
 
 Definition tf_item (TF : tfun) (it : item) : tfun :=
   match it with
-  | ISync | IReset => TF
+  | ISync => TF
+  | IReset => fun _ => None          (* Cache.Reset drops every leaf of the target *)
   | IUpd n => tf_deletes (tf_updates TF (spre n) (n_ts n) (n_updates n)) (spre n) (n_ts n) (n_deletes n)
   end.
 
@@ -1387,12 +1423,145 @@ Definition pinv (st : pstate) (TF : tfun) : Prop :=
   ps_fault st = None /\
   exists T, assoc name (ps_cache st) = Some T /\ ninv T (ps_heap st) (ps_gen st) (ps_sub st) TF.
 
+(** ** a stream failure: Cache.Reset of the subscribed target *)
+
+Lemma root_del_full r : r <> "" -> del_full (root_delete name r) = [name; r; "*"].
+Proof.
+  intros Hr. unfold del_full, root_delete. cbn [d_target d_origin d_path].
+  now rewrite (str_nonempty_true _ name_ne), (str_nonempty_true _ Hr).
+Qed.
+
+Lemma fold_root_deletes sb : forall roots q,
+  (forall r, In r roots -> r <> "") ->
+  fold_left (fun s r => feed_del s (root_delete name r)) roots
+    (Some {| sb_target := sb_target sb; sb_query := sb_query sb; sb_more := sb_more sb; sb_queue := q;
+             sb_client := sb_client sb |}) =
+  Some {| sb_target := sb_target sb; sb_query := sb_query sb; sb_more := sb_more sb;
+          sb_queue := q ++ map (fun r => QDel (root_delete name r))
+                             (filter (fun r => sub_matches sb [name; r; "*"]) roots);
+          sb_client := sb_client sb |}.
+Proof.
+  induction roots as [|r roots IH]; intros q Hne; cbn [fold_left filter map]; [now rewrite app_nil_r|].
+  cbn [feed_del].
+  change ((if str_nonempty (d_target (root_delete name r)) then [d_target (root_delete name r)] else []) ++
+          (if str_nonempty (d_origin (root_delete name r)) then [d_origin (root_delete name r)] else []) ++
+          to_strings_gp (d_path (root_delete name r)) false) with (del_full (root_delete name r)).
+  rewrite (root_del_full r) by (apply Hne; now left).
+  change (sub_matches {| sb_target := sb_target sb; sb_query := sb_query sb; sb_more := sb_more sb;
+                         sb_queue := q; sb_client := sb_client sb |} [name; r; "*"])
+    with (sub_matches sb [name; r; "*"]).
+  destruct (sub_matches sb [name; r; "*"]); cbn [sb_target sb_query sb_more sb_queue sb_client map].
+  - rewrite IH by (intros; apply Hne; now right). now rewrite <- app_assoc.
+  - apply IH. intros; apply Hne; now right.
+Qed.
+
+Lemma fold_delete_roots : forall roots (t : tree nat),
+  wf_tree t ->
+  wf_tree (fold_left (fun t r => fst (delete t [r])) roots t) /\
+  forall s, lookup (fold_left (fun t r => fst (delete t [r])) roots t) s =
+            if existsb (fun r => qmatch [r] s) roots then None else lookup t s.
+Proof.
+  induction roots as [|r roots IH]; intros t Hwf; cbn [fold_left existsb]; [auto|].
+  unfold delete at 1 3. destruct (delete_spec t [r] (fun _ => true) Hwf) as (Hwf' & Hl & _).
+  destruct (IH _ Hwf') as [Hw2 Hl2]. split; [exact Hw2|]. intros s. rewrite Hl2, Hl. unfold sel.
+  destruct (lookup t s); [rewrite andb_true_r|]; destruct (qmatch [r] s), (existsb (fun r0 => qmatch [r0] s) roots); reflexivity.
+Qed.
+
+Lemma under_root_match sb r0 rest :
+  sb_queries sb = Qs -> under (r0 :: rest) = true -> is_glob r0 = false -> sub_matches sb [name; r0; "*"] = true.
+Proof.
+  intros Hs Hu Hr. rewrite sub_matches_all, Hs. unfold under in Hu. apply existsb_exists in Hu as (Qr & Hin & Hp).
+  apply existsb_exists. exists (name :: Qr). split; [unfold Qs; now apply in_map|].
+  cbn [mmatch]. rewrite String.eqb_refl, orb_true_r. cbn [andb].
+  destruct Qr as [|a Qr']; [reflexivity|]. cbn [is_prefix] in Hp. apply andb_true_iff in Hp as [Ha _].
+  cbn [mmatch]. rewrite Ha, orb_true_r. cbn [andb]. destruct Qr' as [|b Qr'']; [reflexivity|].
+  cbn [mmatch]. replace (is_glob "*") with true by reflexivity. rewrite orb_true_r. cbn [orb andb]. now destruct Qr''.
+Qed.
+
+Lemma safeD_clears dom : forall l,
+  (forall e, In e l -> exists p, e = Some (false, p) /\ forallb (fun x => negb (is_glob x)) p = false) ->
+  safeD dom l.
+Proof.
+  intros l. revert dom. induction l as [|e l IH]; intros dom Hl; cbn [safeD]; [exact I|]. split.
+  - destruct (Hl e (or_introl eq_refl)) as (p & -> & Hp). cbn [condD]. intros Hg. congruence.
+  - apply IH. intros; apply Hl; now right.
+Qed.
+
+Lemma reset_own st TF : pinv st TF -> pinv (cache_reset st name) (fun _ => None).
+Proof.
+  intros [Hf (T & HT & Hn)]. unfold cache_reset. rewrite HT.
+  destruct Hn as [N1 N2 N3 N4 Npf N5].
+  set (roots := match children_at T [] with
+                | Some ks => filter (fun k => negb (String.eqb k meta_root)) ks
+                | None => [] end).
+  (* every live key starts with one of the roots; every root is the origin of a live key *)
+  assert (Hroots_live : forall r0 rest g, lookup T (r0 :: rest) = Some g -> In r0 roots).
+  { intros r0 rest g Hl. unfold roots.
+    assert (Hc : exists ks, children_at T [] = Some ks).
+    { destruct T as [[v|cs]|]; cbn in Hl |- *; try discriminate; eauto. }
+    destruct Hc as (ks & Hks). rewrite Hks. apply filter_In. split.
+    - apply (proj2 (children_exact T [] ks N1 Hks)). exists rest, g. exact Hl.
+    - destruct (N2 _ _ Hl) as (_ & r & _ & Hok & Hidx & _). unfold idx in Hidx. inversion Hidx as [[E1 E2]].
+      apply negb_true_iff. apply String.eqb_neq. apply (ro_meta r Hok). }
+  assert (Hroots_ok : forall r0, In r0 roots -> r0 <> "" /\ is_glob r0 = false).
+  { intros r0 Hin. unfold roots in Hin. destruct (children_at T []) as [ks|] eqn:Hks; [|contradiction].
+    apply filter_In in Hin as [Hin _]. apply (proj2 (children_exact T [] ks N1 Hks)) in Hin as (rest & g & Hl).
+    cbn [app] in Hl. destruct (N2 _ _ Hl) as (_ & r & _ & Hok & Hidx & _). unfold idx in Hidx. inversion Hidx as [[E1 E2]].
+    split; [apply (ro_origin r Hok)|].
+    pose proof (Keys_gf _ (ro_key r Hok)) as Hg. unfold idx in Hg. cbn [glob_free forallb] in Hg.
+    apply andb_true_iff in Hg as [Hg _]. now apply negb_true_iff in Hg. }
+  destruct (fold_delete_roots roots T N1) as [Hwf' Hl'].
+  assert (Hdead : forall k, lookup (fold_left (fun t r => fst (delete t [r])) roots T) k = None).
+  { intros k. rewrite Hl'. destruct (lookup T k) as [g|] eqn:El; [|now destruct (existsb _ roots)].
+    destruct (N2 _ _ El) as (_ & r & _ & _ & Hidx & _). unfold idx in Hidx. destruct k as [|r0 rest]; [discriminate|].
+    assert (Hex : existsb (fun r1 => qmatch [r1] (r0 :: rest)) roots = true); [|now rewrite Hex].
+    apply existsb_exists. exists r0. split; [eapply Hroots_live; eauto|].
+    cbn [qmatch]. destruct (Hroots_ok r0 (Hroots_live _ _ _ El)) as [_ Hg]. now rewrite Hg, String.eqb_refl. }
+  split; [assumption|]. eexists. cbn [ps_cache ps_heap ps_gen ps_sub]. split; [now rewrite assoc_aset, String.eqb_refl|].
+  constructor; auto; try (intros; discriminate).
+  - intros k g. now rewrite Hdead.
+  - destruct (ps_sub st) as [sb|] eqn:Esb.
+    2:{ assert (Hn : forall l, fold_left (fun s r => feed_del s (root_delete name r)) l None = None)
+          by (induction l as [|r l IH]; cbn [fold_left feed_del]; auto).
+        now rewrite Hn. }
+    replace (Some sb) with (Some {| sb_target := sb_target sb; sb_query := sb_query sb; sb_more := sb_more sb;
+                                    sb_queue := sb_queue sb; sb_client := sb_client sb |})
+      by (destruct sb; reflexivity).
+    rewrite (fold_root_deletes sb roots (sb_queue sb)) by (intros r Hr; apply (Hroots_ok r Hr)).
+    pose proof N5 as [S1 S2 S3 S4 S5 S6 S7 S8].
+    set (dels := map (fun r => QDel (root_delete name r)) (filter (fun r => sub_matches sb [name; r; "*"]) roots)).
+    assert (Hdels : forall i, In i dels -> exists r, In r roots /\ sub_matches sb [name; r; "*"] = true /\
+                      i = QDel (root_delete name r) /\ del_full (root_delete name r) = [name; r; "*"]).
+    { intros i Hi. apply in_map_iff in Hi as (r & <- & Hr). apply filter_In in Hr as [Hr Hm].
+      exists r. repeat split; auto. apply root_del_full, (Hroots_ok r Hr). }
+    constructor; cbn [sb_queries sb_query sb_more sb_queue sb_client]; auto.
+    + intros i Hi. apply in_app_iff in Hi as [Hi|Hi]; [auto|].
+      destruct (Hdels i Hi) as (r & Hr & _ & -> & Hd). cbn [item_ok]. right. exists r. split; [exact Hd|apply (Hroots_ok r Hr)].
+    + intros k Hk. unfold final. rewrite last_conc_app.
+      destruct (last_conc (ps_heap st) (name :: k) dels) as [j|] eqn:El.
+      * apply last_conc_In in El as [Hj _]. destruct (Hdels j Hj) as (r & _ & _ & -> & _). now destruct (under k).
+      * specialize (S6 k Hk). unfold final in S6. rewrite S6. destruct (under k) eqn:Hu; [|reflexivity].
+        destruct (TF k) as [x|] eqn:Etf; [|reflexivity]. exfalso.
+        destruct (N3 _ _ Etf) as (g & Hg). destruct k as [|r0 rest].
+        { destruct (N2 _ _ Hg) as (_ & r & _ & _ & Hidx & _). discriminate. }
+        pose proof (Hroots_live _ _ _ Hg) as Hin. destruct (Hroots_ok r0 Hin) as [Hne Hgl].
+        assert (Hi : In (QDel (root_delete name r0)) dels).
+        { apply (in_map (fun r => QDel (root_delete name r))). apply filter_In. split; [assumption|].
+          now apply (under_root_match sb r0 rest S1 Hu Hgl). }
+        apply (proj1 (last_conc_None _ _ _) El) in Hi. cbn [concerns] in Hi.
+        rewrite (root_del_full r0 Hne), dmatch_root, (qmatch_root r0 (r0 :: rest) Hgl), String.eqb_refl in Hi. discriminate.
+    + intros k g. now rewrite Hdead.
+    + rewrite map_app. apply safeD_app. split; [assumption|]. apply safeD_clears.
+      intros e He. apply in_map_iff in He as (i & <- & Hi). destruct (Hdels i Hi) as (r & _ & _ & -> & Hd).
+      cbn [ev]. rewrite Hd. eexists. split; [reflexivity|]. cbn [forallb]. now rewrite !andb_false_r.
+Qed.
+
 Lemma ingest_own st TF it :
   pinv st TF -> item_good it -> pf_item TF it ->
   pinv (ingest st name it) (tf_item TF it).
 Proof.
   intros [Hf (T & HT & Hn)] Hg Hpfi. unfold ingest. rewrite Hf.
-  destruct it as [|n|]; [split; eauto| |contradiction].
+  destruct it as [|n|]; [split; eauto| |apply (reset_own st TF); split; eauto].
   rewrite stamp_spre. cbn [n_prefix]. rewrite HT. destruct Hg as [Hm Hus].
   pose proof (noti_step {| w_tree := T; w_heap := ps_heap st; w_gen := ps_gen st; w_sub := ps_sub st; w_fault := None |}
                 TF (spre n) (n_ts n) (n_updates n) (n_deletes n)
@@ -1738,7 +1907,7 @@ Variable name : string.
 Definition no_porigin (it : item) : Prop :=
   match it with
   | ISync => True
-  | IReset => False          (* one session *)
+  | IReset => True
   | IUpd n =>
       item_prefix_origin it = "" ->
       (forall u, In u (n_updates n) -> g_origin (fst u) = "") /\
@@ -1862,7 +2031,7 @@ Proof.
     apply (IH (c ++ [it]) (replay_step F it)); auto.
     + now apply NoDup_replay_step.
     + intros k0. unfold tf_run. rewrite fold_left_app. cbn [fold_left]. fold (tf_run name c).
-      destruct it as [|n|]; [apply HR| |contradiction]. now apply item_equiv.
+      destruct it as [|n|]; [apply HR| |reflexivity]. now apply item_equiv.
 Qed.
 
 (** the executable check of PipelineCheck ([prefix_free_from]) implies the
@@ -1905,7 +2074,7 @@ Proof.
     intros u Hu. apply skey_tkey. intros E. now apply (proj1 (Hn1 E)).
   - apply (IH (c ++ [it]) (replay_step F it)); auto.
     + now apply NoDup_replay_step.
-    + intros k0. rewrite <- Hstep. destruct it as [|n|]; [apply HR| |contradiction]. now apply item_equiv.
+    + intros k0. rewrite <- Hstep. destruct it as [|n|]; [apply HR| |reflexivity]. now apply item_equiv.
 Qed.
 End Equiv.
 
@@ -2155,7 +2324,7 @@ Record ginv (st : pstate) : Prop := {
 }.
 
 Definition item_nometa (n : string) (it : item) : Prop :=
-  match it with IUpd nt => g_origin (spre n nt) <> meta_root | ISync => True | IReset => False end.
+  match it with IUpd nt => g_origin (spre n nt) <> meta_root | ISync | IReset => True end.
 
 Lemma ingest_ginv st n it :
   ginv st -> item_nometa n it ->
@@ -2171,7 +2340,28 @@ Proof.
                   forall n3, n3 <> n -> assoc n3 (ps_cache st) = assoc n3 (ps_cache st)).
   { split; [constructor; assumption|]. split; [apply heap_delta_refl|]. split; [lia|].
     split; [apply sub_frame_refl|reflexivity]. }
-  destruct it as [|nt|]; [exact Hsame| |contradiction]. rewrite (stamp_spre n nt). cbn [n_prefix].
+  destruct it as [|nt|]; [exact Hsame| |].
+  2:{ (* Cache.Reset of target n *)
+      unfold cache_reset. destruct (assoc n (ps_cache st)) as [t|] eqn:Ht; [|exact Hsame].
+      destruct (G3 n (assoc_Some_key _ _ _ Ht)) as [Hne Hng]. destruct (G4 _ _ Ht) as [Hwf Hown].
+      set (roots := match children_at t [] with
+                    | Some ks => filter (fun k => negb (String.eqb k meta_root)) ks | None => [] end).
+      destruct (fold_delete_roots roots t Hwf) as [Hwf' Hl'].
+      cbn [ps_cache ps_heap ps_gen ps_sub ps_fault].
+      split; [|split; [apply heap_delta_refl|split; [lia|split]]].
+      - constructor; cbn [ps_fault ps_cache ps_heap ps_gen]; auto.
+        + rewrite keys_aset_in by (eapply assoc_Some_key; eauto). assumption.
+        + intros n0. rewrite keys_aset_in by (eapply assoc_Some_key; eauto). apply G3.
+        + intros n0 T0. rewrite assoc_aset. destruct (String.eqb_spec n0 n) as [->|Hn0]; [|apply G4].
+          intros E; inversion E; subst T0. split; [assumption|].
+          intros k g. rewrite Hl'. destruct (existsb _ roots); [discriminate|apply Hown].
+      - intros sb Hs Hmm. rewrite Hs. clear -Hmm Hne. induction roots as [|r l IH]; cbn [fold_left]; [reflexivity|].
+        assert (E : feed_del (Some sb) (root_delete n r) = Some sb).
+        { cbn [feed_del root_delete d_target d_origin d_path]. rewrite (str_nonempty_true _ Hne). cbn [app].
+          now rewrite Hmm. }
+        rewrite E. exact IH.
+      - intros n3 Hn3. rewrite assoc_aset. destruct (String.eqb_spec n3 n); [contradiction|reflexivity]. }
+  rewrite (stamp_spre n nt). cbn [n_prefix].
   destruct (assoc n (ps_cache st)) as [t|] eqn:Ht; [|exact Hsame].
   destruct (G3 n (assoc_Some_key _ _ _ Ht)) as [Hne Hng]. destruct (G4 _ _ Ht) as [Hwf Hown].
   set (w0 := {| w_tree := t; w_heap := ps_heap st; w_gen := ps_gen st; w_sub := ps_sub st; w_fault := None |}).
@@ -2509,6 +2699,60 @@ Proof.
   - intros E. apply (proj2 (sub_none_iff _)) in E. rewrite Hsn in E. apply sub_none_iff in E. contradiction.
 Qed.
 
+(** at any point of any run: if nothing more arrives, the client ends up with
+    the replay of what the subscribed target has delivered SO FAR -- in
+    particular, after a stream failure and part of the next session, with
+    nothing the new session has not sent: no leaf of an earlier session
+    survives a reconnect *)
+Lemma relay_prefix_tf cfg ss sched :
+  validate cfg = true -> NoDup (keys (cf_targets cfg)) ->
+  (forall n, In n (keys (cf_targets cfg)) -> is_glob n = false) ->
+  In name (keys (cf_targets cfg)) ->
+  NoDup (keys ss) -> assoc name ss = Some s -> streams_ok ss ->
+  exists rs c rem l,
+    run_to cfg ss cq sched = Some rs /\ s = c ++ rem /\ assoc name (rn_streams rs) = Some rem /\
+    pipeline_at cfg ss cq sched = VLeaves l /\ NoDup (map fst l) /\
+    forall p sc, In (p, sc) l <->
+      exists k, p = name :: k /\ under Qrs k = true /\ decode (tf_run name c k) = Some sc.
+Proof.
+  intros Hv Hndt Hng Hin Hnds Hs Hok. unfold pipeline_at, run_to. pose proof (collector_start_spec cfg) as Hcs.
+  destruct (collector_start cfg) as [[managed cached]|]; [|congruence].
+  destruct Hcs as (_ & Hkm & Hc & _). subst cached.
+  set (rs0 := {| rn_st := initial (keys (cf_targets cfg));
+                 rn_streams := managed_streams (keys managed) ss; rn_subres := None |}).
+  pose proof (assoc_initial (keys (cf_targets cfg))) as Hinit.
+  assert (Hex : existsb (String.eqb name) (keys (cf_targets cfg)) = true).
+  { apply existsb_exists. exists name. split; [assumption|apply String.eqb_refl]. }
+  assert (H0 : minv rs0).
+  { apply (Build_minv _ [] s); unfold rs0; cbn [rn_st rn_streams rn_subres]; auto.
+    - unfold managed_streams. rewrite (assoc_filter_keys (fun n => existsb (String.eqb n) (keys managed))).
+      now rewrite Hkm, Hex.
+    - unfold managed_streams. now apply NoDup_fst_filter.
+    - intros n' l Hl. apply filter_In in Hl as [Hl _]. now apply Hok.
+    - split; [reflexivity|]. exists None. split; [now rewrite Hinit, Hex|].
+      constructor; cbn; auto; try discriminate.
+    - constructor; cbn [initial ps_fault ps_cache ps_heap ps_gen]; auto.
+      + rewrite map_map. cbn. now rewrite map_id.
+      + intros n Hn. rewrite map_map in Hn. cbn in Hn. rewrite map_id in Hn. split; [|now apply Hng].
+        apply in_map_iff in Hn as ([n0 t] & E & Hnt). cbn in E. subst n0.
+        now destruct (validate_In cfg n t Hv Hnt).
+      + intros n T. fold (initial (keys (cf_targets cfg))). change (map (fun n0 : string => (n0, None)) (keys (cf_targets cfg)))
+          with (ps_cache (initial (keys (cf_targets cfg)))). rewrite Hinit.
+        destruct (existsb (String.eqb n) (keys (cf_targets cfg))); [|discriminate].
+        intros E. injection E as <-. split; [exact I|].
+        intros k g. cbn. discriminate.
+      + intros g r. cbn. discriminate. }
+  assert (Hall : forall acts rs, minv rs -> minv (fold_left (do_action cq) acts rs)).
+  { induction acts as [|a acts IH]; intros rs Hrs; cbn [fold_left]; [assumption|].
+    apply IH. now apply do_action_minv. }
+  specialize (Hall sched rs0 H0). set (rs1 := fold_left (do_action cq) sched rs0) in *.
+  destruct Hall as [c rem H1 H2 Hnd Hok1 H3 Hg H6 Hpf H7].
+  exists rs1, c, rem.
+  edestruct (finish_view name Keys Vals Qrs) with (st1 := rn_st rs1) (subres := rn_subres rs1)
+    (TF := tf_run name c) as (l & Hl & Hnd' & Hmem); eauto.
+  exists l. repeat split; auto; apply Hmem.
+Qed.
+
 End Multi.
 
 (** * relay_faithful, for any number of targets and every schedule *)
@@ -2579,6 +2823,133 @@ Proof.
   - cbn. intros Qr k Hq [_ Hk]. now apply Hk.
 Qed.
 
+(** no stale leaf survives a reconnect: at ANY point of any run, if nothing more
+    arrives, the client ends up with the replay of what the subscribed target
+    has delivered so far ([c]); after a stream failure [replay c] holds only
+    what the new session has sent *)
+Theorem relay_no_stale_all (name : string) (Vals : tv -> Prop) (Qrs : list path)
+    (cq : cquery) (s : list item) (cfg : config) (ss : streams) (sched : list action) :
+  (forall v : tv, Vals v -> to_scalar v <> None) ->
+  (forall a b : tv, Vals a -> Vals b -> tv_equal a b = true -> to_scalar a = to_scalar b) ->
+  (forall a b : tv, Vals a -> Vals b -> tv_eqb a b = true -> a = b) ->
+  (forall Qr, In Qr Qrs -> glob_free Qr = true) ->
+  g_target (cq_prefix cq) = name ->
+  map (complete_path (cq_prefix cq)) (cq_paths cq) = map Some Qrs ->
+  stream_ok name Vals Qrs s ->
+  validate cfg = true -> NoDup (keys (cf_targets cfg)) ->
+  (forall n, In n (keys (cf_targets cfg)) -> is_glob n = false) ->
+  In name (keys (cf_targets cfg)) ->
+  NoDup (keys ss) -> assoc name ss = Some s ->
+  (forall n' l, In (n', l) ss -> Forall (item_nometa n') l) ->
+  exists rs c rem l,
+    run_to cfg ss cq sched = Some rs /\ s = c ++ rem /\ assoc name (rn_streams rs) = Some rem /\
+    pipeline_at cfg ss cq sched = VLeaves l /\
+    Permutation l (selects_any (sub_queries cq) (stamp_paths name (replay c))).
+Proof.
+  intros V1 V2 V3 HQg Ht Hc (Hgood & Hno & Hpfc) Hv Hndt Hng Hin Hnds Hs Hok.
+  assert (Hne : name <> "").
+  { apply in_map_iff in Hin as ([n0 t] & E & Hnt). cbn in E. subst n0. now destruct (validate_In cfg name t Hv Hnt). }
+  assert (Hpf : pf_items name tf0 s).
+  { apply (pf_items_of_check name s [] []); auto. constructor. }
+  set (Keys := fun k => glob_free k = true /\ forall Qr, In Qr Qrs -> strict_prefix k Qr = false).
+  destruct (relay_prefix_tf name Keys Vals Qrs) with (cq := cq) (s := s) (cfg := cfg) (ss := ss) (sched := sched)
+    as (rs & c & rem & l & Hr & Hsp & Hrem & Hp & Hnd & Hl); auto.
+  - unfold Keys. tauto.
+  - unfold Keys. intros Qr k Hq [_ Hk]. now apply Hk.
+  - exists rs, c, rem, l. repeat (split; [assumption|]).
+    rewrite (cq_queries name Qrs Hne cq Ht Hc). apply (leaves_of_tf name Qrs c l); auto.
+    rewrite Hsp in Hno. now apply Forall_app in Hno as [Hno _].
+Qed.
+
+(** the same two statements read over sessions: only the last session counts *)
+Lemma replay_reset a b : replay (a ++ IReset :: b) = replay b.
+Proof. unfold replay. rewrite fold_left_app. reflexivity. Qed.
+
+Lemma replay_join earlier last : replay (join_sessions earlier last) = replay last.
+Proof. induction earlier as [|p r IH]; cbn [join_sessions]; [reflexivity|]. now rewrite replay_reset. Qed.
+
+Theorem relay_sessions_all (name : string) (Vals : tv -> Prop) (Qrs : list path)
+    (cq : cquery) (earlier : list (list item)) (last : list item)
+    (cfg : config) (ss : streams) (sched : list action) :
+  (forall v : tv, Vals v -> to_scalar v <> None) ->
+  (forall a b : tv, Vals a -> Vals b -> tv_equal a b = true -> to_scalar a = to_scalar b) ->
+  (forall a b : tv, Vals a -> Vals b -> tv_eqb a b = true -> a = b) ->
+  (forall Qr, In Qr Qrs -> glob_free Qr = true) ->
+  g_target (cq_prefix cq) = name ->
+  map (complete_path (cq_prefix cq)) (cq_paths cq) = map Some Qrs ->
+  stream_ok name Vals Qrs (join_sessions earlier last) ->
+  validate cfg = true -> NoDup (keys (cf_targets cfg)) ->
+  (forall n, In n (keys (cf_targets cfg)) -> is_glob n = false) ->
+  In name (keys (cf_targets cfg)) ->
+  NoDup (keys ss) -> assoc name ss = Some (join_sessions earlier last) ->
+  (forall n' l, In (n', l) ss -> Forall (item_nometa n') l) ->
+  exists l, pipeline cfg ss cq sched = VLeaves l /\
+            Permutation l (selects_any (sub_queries cq) (stamp_paths name (replay last))).
+Proof.
+  intros. rewrite <- (replay_join earlier last). eapply relay_faithful_all; eauto.
+Qed.
+
+(** between the reset that ends the sessions [earlier] and anything later: if
+    the run has consumed the earlier sessions, the reset and [sent] of the new
+    one, the client holds nothing but the replay of [sent] *)
+Corollary relay_no_stale_sessions (name : string) (Vals : tv -> Prop) (Qrs : list path)
+    (cq : cquery) (s : list item) (cfg : config) (ss : streams) (sched : list action) :
+  (forall v : tv, Vals v -> to_scalar v <> None) ->
+  (forall a b : tv, Vals a -> Vals b -> tv_equal a b = true -> to_scalar a = to_scalar b) ->
+  (forall a b : tv, Vals a -> Vals b -> tv_eqb a b = true -> a = b) ->
+  (forall Qr, In Qr Qrs -> glob_free Qr = true) ->
+  g_target (cq_prefix cq) = name ->
+  map (complete_path (cq_prefix cq)) (cq_paths cq) = map Some Qrs ->
+  stream_ok name Vals Qrs s ->
+  validate cfg = true -> NoDup (keys (cf_targets cfg)) ->
+  (forall n, In n (keys (cf_targets cfg)) -> is_glob n = false) ->
+  In name (keys (cf_targets cfg)) ->
+  NoDup (keys ss) -> assoc name ss = Some s ->
+  (forall n' l, In (n', l) ss -> Forall (item_nometa n') l) ->
+  forall rs rem earlier sent,
+    run_to cfg ss cq sched = Some rs -> assoc name (rn_streams rs) = Some rem ->
+    s = join_sessions earlier sent ++ rem ->
+    exists l, pipeline_at cfg ss cq sched = VLeaves l /\
+              Permutation l (selects_any (sub_queries cq) (stamp_paths name (replay sent))).
+Proof.
+  intros V1 V2 V3 HQg Ht Hc Hok Hv Hndt Hng Hin Hnds Hs Hnm rs rem earlier sent Hr Hrem Hsp.
+  destruct (relay_no_stale_all name Vals Qrs cq s cfg ss sched) as (rs' & c & rem' & l & Hr' & Hsp' & Hrem' & Hp & Hperm); auto.
+  rewrite Hr in Hr'. injection Hr' as <-. rewrite Hrem in Hrem'. injection Hrem' as <-.
+  rewrite Hsp in Hsp'. apply app_inv_tail in Hsp'. subst c.
+  exists l. split; [assumption|]. now rewrite replay_join in Hperm.
+Qed.
+
+(** both forms together *)
+Theorem relay_no_stale :
+  forall (name : string) (Vals : tv -> Prop) (Qrs : list path)
+         (cq : cquery) (s : list item) (cfg : config) (ss : streams) (sched : list action),
+    (forall v : tv, Vals v -> to_scalar v <> None) ->
+    (forall a b : tv, Vals a -> Vals b -> tv_equal a b = true -> to_scalar a = to_scalar b) ->
+    (forall a b : tv, Vals a -> Vals b -> tv_eqb a b = true -> a = b) ->
+    (forall Qr, In Qr Qrs -> glob_free Qr = true) ->
+    g_target (cq_prefix cq) = name ->
+    map (complete_path (cq_prefix cq)) (cq_paths cq) = map Some Qrs ->
+    stream_ok name Vals Qrs s ->
+    validate cfg = true -> NoDup (keys (cf_targets cfg)) ->
+    (forall n, In n (keys (cf_targets cfg)) -> is_glob n = false) ->
+    In name (keys (cf_targets cfg)) ->
+    NoDup (keys ss) -> assoc name ss = Some s ->
+    (forall n' l, In (n', l) ss -> Forall (item_nometa n') l) ->
+    (exists rs c rem l,
+       run_to cfg ss cq sched = Some rs /\ s = c ++ rem /\ assoc name (rn_streams rs) = Some rem /\
+       pipeline_at cfg ss cq sched = VLeaves l /\
+       Permutation l (selects_any (sub_queries cq) (stamp_paths name (replay c)))) /\
+    (forall rs rem earlier sent,
+       run_to cfg ss cq sched = Some rs -> assoc name (rn_streams rs) = Some rem ->
+       s = join_sessions earlier sent ++ rem ->
+       exists l, pipeline_at cfg ss cq sched = VLeaves l /\
+                 Permutation l (selects_any (sub_queries cq) (stamp_paths name (replay sent)))).
+Proof.
+  intros. split.
+  - apply relay_no_stale_all with (Vals := Vals) (Qrs := Qrs); assumption.
+  - apply relay_no_stale_sessions with (Vals := Vals) (Qrs := Qrs); assumption.
+Qed.
+
 (** ** the hypotheses are satisfiable (and the conclusion is about a non-empty view) *)
 Module RelayExample.
 Definition el (n : string) : pelem := {| e_name := n; e_keys := [] |}.
@@ -2596,7 +2967,15 @@ Definition s1 : list item :=
        copy is rejected as stale; the delete still takes effect *)
     IUpd {| n_ts := 150; n_prefix := None;
             n_updates := [(gp "" [el "a"; el "d"], TVString "up"); (gp "" [el "a"; el "d"], TVString "up")];
-            n_deletes := [gp "" [el "a"; eth0]] |} ].
+            n_deletes := [gp "" [el "a"; eth0]] |};
+    (* the stream fails; the collector resets the target; the second session
+       re-sends its state from scratch, with timestamps of its own *)
+    IReset;
+    IUpd {| n_ts := 5; n_prefix := None;
+            n_updates := [(gp "" [el "a"; el "d"], TVString "up")]; n_deletes := [] |};
+    ISync;
+    IUpd {| n_ts := 6; n_prefix := Some (gp "foo" [el "x"]);
+            n_updates := [(gp "" [el "y"], TVDecimal 15 1)]; n_deletes := [] |} ].
 Definition s2 : list item :=
   [ IUpd {| n_ts := 7; n_prefix := None; n_updates := [(gp "" [el "a"], TVAscii "x")]; n_deletes := [] |} ].
 Definition cfg : config :=
@@ -2611,7 +2990,9 @@ Definition q : cquery :=
 Definition q2 : cquery :=
   {| cq_prefix := {| g_origin := ""; g_target := "dev1"; g_elem := []; g_element := [] |};
      cq_path := gp "foo" []; cq_more := [gp "openconfig" [el "a"]] |}.
-Definition sched : list action := [AIngest "dev1"; ASubscribe; AIngest "dev2"; ASend; AIngest "dev1"].
+Definition sched : list action :=
+  [AIngest "dev1"; ASubscribe; AIngest "dev2"; ASend; AIngest "dev1"; AIngest "dev1"; AIngest "dev1";
+   ASend; AIngest "dev1" (* the failure *); AIngest "dev1"; ASend].
 Definition valset : list tv := [TVInt 5; TVString "up"; TVDecimal 15 1].
 
 Lemma example :
@@ -2747,6 +3128,34 @@ Lemma reconnect_example :
     = VLeaves [(["dev1"; "openconfig"; "a"; "y"], SInt 7)] /\
   selects ["dev1"] (stamp_paths "dev1" (replay s_sessions)) = [(["dev1"; "openconfig"; "a"; "y"], SInt 7)].
 Proof. vm_compute. split; reflexivity. Qed.
+
+(** the same run stopped right after the reset: the client holds nothing (the
+    new session has sent nothing yet); with the reset skipped it still holds
+    both leaves of the dead session *)
+Lemma no_stale_example :
+  pipeline_at cfg1 [("dev1", s_sessions)] q
+      [AIngest "dev1"; AIngest "dev1"; ASubscribe; ASend; ASend; ASend; AIngest "dev1"] = VLeaves [] /\
+  pipeline_at cfg1 [("dev1", filter (fun it => match it with IReset => false | _ => true end) s_sessions)] q
+      [AIngest "dev1"; AIngest "dev1"; ASubscribe; ASend; ASend; ASend]
+    = VLeaves [(["dev1"; "openconfig"; "a"; "x"], SInt 1); (["dev1"; "openconfig"; "a"; "y"], SInt 2)].
+Proof. vm_compute. split; reflexivity. Qed.
+
+(** the statement discriminates: a collector that SKIPS the reset when a session
+    ends (what manager did on a clean EOF in round-5's seed) behaves like the
+    pipeline fed the same messages without the failure marker; on the stream
+    above it keeps x from the first session and rejects the second session's y
+    as stale -- not what the target's last session holds *)
+Definition s_sessions_skip : list item :=
+  filter (fun it => match it with IReset => false | _ => true end) s_sessions.
+
+Lemma skip_reset_refuted :
+  exists l, pipeline cfg1 [("dev1", s_sessions_skip)] q
+              [AIngest "dev1"; AIngest "dev1"; ASubscribe; ASend; ASend; ASend; AIngest "dev1"; ASend] = VLeaves l /\
+            ~ Permutation l (selects ["dev1"] (stamp_paths "dev1" (replay s_sessions))).
+Proof.
+  eexists. split; [vm_compute; reflexivity|]. vm_compute. intros Hp.
+  apply Permutation_length in Hp. discriminate.
+Qed.
 
 (** regression witness for DEFECT C01_3 (fixed by 6b65ac8): prefix in elem, path
     in the deprecated element encoding.  The delete notification of the code
